@@ -150,7 +150,8 @@ def gen_case(rng: random.Random, k: int, w) -> Dict[str, Any]:
             eid = rng.choice(present) if (present and rng.random() < 0.93) else rng.choice(ids)
             cur = _entities(kind, sim).get(eid)
             cell = cur.geoid if (cur is not None and rng.random() < 0.3) else rng.choice(cells)
-            op, args = "modify", (eid, cell, j)
+            # (a quarter of the modifications come in through the co-simulation API, runner_payload_ops.modify_entities_safe)
+            op, args = ("modify" if rng.random() < 0.75 else "rp_modify"), (eid, cell, j)
         else:
             eid = rng.choice(present) if (present and rng.random() < 0.9) else rng.choice(ids)
             op, args = "remove", (eid,)
@@ -159,6 +160,11 @@ def gen_case(rng: random.Random, k: int, w) -> Dict[str, Any]:
                 res = add(sim, make(*args))
             elif op == "modify":
                 res = mod(sim, make(*args))
+            elif op == "rp_modify":
+                from nrel.hive.runner import runner_payload_ops
+                from nrel.hive.runner.runner_payload import RunnerPayload
+
+                res = runner_payload_ops.modify_entities_safe(RunnerPayload(sim, None, None), [make(*args)]).map(lambda rp: rp.s)
             else:
                 res = rem(sim, args[0])
             if isinstance(res, Failure):
@@ -168,7 +174,7 @@ def gen_case(rng: random.Random, k: int, w) -> Dict[str, Any]:
                 sim = res.unwrap()
         except Exception:
             outcome = "raise"
-        step = {"op": op, "id": n.get(kind, args[0]), "outcome": outcome, "after": snapshot(n, kind, sim)}
+        step = {"op": "modify" if op == "rp_modify" else op, "via": op, "id": n.get(kind, args[0]), "outcome": outcome, "after": snapshot(n, kind, sim)}
         step["after"]["lookups"] = lookups(n, kind, sim, cells, rng)
         if op != "remove":
             step["cell"] = n.cell(args[1])
@@ -194,7 +200,7 @@ def worker(args) -> Dict[str, Any]:
     for r, o in zip(recs, outs):
         n_ops += len(r["steps"])
         for st in r["steps"]:
-            shapes.add((r["kind"], st["op"], st["outcome"]))
+            shapes.add((r["kind"], st.get("via", st["op"]), st["outcome"]))
             lk = st["after"]["lookups"]
             n_lookups += len(lk["at"]) + len(lk["search"]) + len(lk["near"])
             for x in lk["near"]:
